@@ -3,9 +3,12 @@
 import json, glob, os
 V = os.path.dirname(os.path.abspath(__file__))
 props = {}
+claimed = set(open(os.path.join(V, "claimed.txt")).read().split())
 for p in sorted(glob.glob(os.path.join(V, "props", "C*.json"))):
     d = json.load(open(p))
     if d.get("disabled"):
+        continue
+    if os.path.basename(p)[:-5] not in claimed:
         continue
     props[os.path.basename(p)[:-5]] = d
 titles = {}
